@@ -175,4 +175,36 @@ theorem determineLevel_eq_specLevel (c : Cfg) (p : Pt) (cur : Nat) : determineLe
         | some l => exact hdownS l hd
         | none => exact hdownN hd
 
+theorem determineLevel_of_no_resets (c : Cfg) (p : Pt) (cur : Nat)
+    (h : c.infoReset = false ∧ c.warnReset = false ∧ c.critReset = false) :
+    determineLevel c p cur = highestHolding c p := by
+  rw [determineLevel_eq_specLevel]
+  obtain ⟨h1, h2, h3⟩ := h
+  have : heldBack c p cur = false := by
+    unfold heldBack resetExpr
+    match cur with
+    | 0 => rfl
+    | 1 => simp [h1]
+    | 2 => simp [h2]
+    | 3 => simp [h3]
+    | _ + 4 => rfl
+  simp [specLevel, this]
+
+theorem determineLevel_le (c : Cfg) (p : Pt) (cur : Nat) (h : cur ≤ 3) : determineLevel c p cur ≤ 3 := by
+  rw [determineLevel_eq_specLevel]
+  unfold specLevel
+  have := highestHolding_le c p
+  simp only []
+  split <;> omega
+
+theorem effHistory_ge_two (h : Option Int) : 2 ≤ effHistory h := by
+  unfold effHistory
+  simp only [Gen.defaultHistory, Gen.historyClamp]
+  cases h with
+  | none => decide
+  | some h =>
+    by_cases hh : h < 2
+    · simp [hh]
+    · simp only [hh, if_false]; omega
+
 end Kap.C01
